@@ -1,6 +1,7 @@
 package main
 
 import (
+	"golang.org/x/tools/go/ssa"
 	"flag"
 	"fmt"
 	"os"
@@ -20,6 +21,8 @@ func main() {
 		cmdVC(os.Args[2:])
 	case "check":
 		os.Exit(cmdCheck(os.Args[2:]))
+	case "frames":
+		cmdFrames(os.Args[2:])
 	default:
 		fmt.Fprintln(os.Stderr, "unknown command", os.Args[1])
 		os.Exit(2)
@@ -112,3 +115,53 @@ func (g *Gen) prepareFrames(keys []string) {
 	}
 	g.inferFrames(roots)
 }
+
+func cmdFrames(args []string) {
+	fs := flag.NewFlagSet("frames", flag.ExitOnError)
+	re := fs.String("f", "", "regexp on function keys")
+	fs.Parse(args)
+	g := newGen()
+	if err := g.load("/repo", defaultPatterns); err != nil {
+		fmt.Fprintln(os.Stderr, "load:", err)
+		os.Exit(2)
+	}
+	rx := regexp.MustCompile(*re)
+	var keys []string
+	for k := range g.funcs {
+		if rx.MatchString(k) {
+			keys = append(keys, k)
+		}
+	}
+	sort.Strings(keys)
+	g.prepareFrames(keys)
+	for _, k := range keys {
+		if os.Getenv("GOVC_DBG_DYN") != "" {
+			fn := g.funcs[k]
+			for _, b := range fn.Blocks {
+				for _, in := range b.Instrs {
+					if ci, ok := in.(ssaCall); ok && !ci.Common().IsInvoke() == false {
+						for i, a := range ci.Common().Args {
+							fmt.Printf("  %s invoke %s arg%d %s: dyn=%v\n", shortKey(k), ci.Common().Method.Name(), i, a.Type(), len(g.dynTypes(a, 0)))
+							if i == 0 {
+								cf := g.callFrame(ci.Common())
+								fmt.Printf("     callFrame: top=%v n=%d pure=%v inmod=%v\n", cf.top, len(cf.arrs), g.pureIfaceMethod(ci.Common()), g.inModule(ci.Common().Method.Pkg()))
+							}
+						}
+					}
+				}
+			}
+		}
+		fr := g.frames[g.funcs[k]]
+		if fr == nil {
+			fmt.Printf("%s: (contract frame)\n", k)
+			continue
+		}
+		as := sortedKeys(fr.arrs)
+		if len(as) > 12 {
+			as = append(as[:12], fmt.Sprintf("... %d more", len(as)-12))
+		}
+		fmt.Printf("%s: top=%v why=%q callsParam=%v facts=%v arrs(%d)=%v\n", shortKey(k), fr.top, fr.why, fr.callsParam, sortedKeys(fr.facts), len(fr.arrs), as)
+	}
+}
+
+type ssaCall = ssa.CallInstruction
